@@ -18,3 +18,10 @@ for t in G.P.tasks:
 from contracts import C02_modes as M
 for t in M.P.tasks:
     P.tasks.append(Task(P, "force_purity." + t.name, t.fn, t.func, files=t.files or M.P.files, timeout=t.timeout))
+
+# symmetric schemes reverse only if the Kepler solver is an odd function of dt, including its bisection fall-back (the hyperbolic
+# bracket for dt < 0): the solver contract of C03 is re-registered
+from contracts import C03_kepler as K3
+for t in K3.P.tasks:
+    if t.name == "kepler_solver.fg":
+        P.tasks.append(Task(P, "kepler_reverses." + t.name, t.fn, t.func, files=t.files or K3.P.files, timeout=t.timeout, order=t.order, z3_ms=t.z3_ms, polyid_s=t.polyid_s))
